@@ -486,6 +486,17 @@ func (ex *Exec) intrinsic(fn *ssa.Function, args []Value, caller *Frame) (hres, 
 		name := ex.freshName("choice:" + strArg(args[0]))
 		k := ex.intArg(args[1])
 		if fx, ok := ex.fixed[name]; ok {
+			// pinned by -fix (shard): still record it as an input so that
+			// witnesses/counterexamples replay natively with the same value
+			fv := Var(name, SBV(64))
+			if !ex.inputSeen[name] {
+				ex.inputSeen[name] = true
+				ex.inputs = append(ex.inputs, fv)
+			}
+			if ex.pathModel != nil {
+				ex.pathModel[name] = BVI(int64(fx), 64)
+			}
+			ex.pc = append(ex.pc, Eq(fv, BVI(int64(fx), 64)))
 			return hres{val: BVI(int64(fx), 64)}, true
 		}
 		if cv, ok := ex.concrete[name]; ok {
